@@ -119,6 +119,12 @@ func c20Body(g *Gen, tier string) []byte {
 
 // c20Ref is the property's reference computed on the original bytes.
 func c20Ref(body []byte, tag string) []byte {
+	// the tag is text; in the document (ISO 8859-1) each of its characters is one byte
+	lt := make([]byte, 0, len(tag))
+	for _, r := range tag {
+		lt = append(lt, byte(r))
+	}
+	tag = string(lt)
 	uoff := 0
 	for i := 0; i < len(body); i++ {
 		if uoff >= 16384 {
@@ -295,8 +301,12 @@ func init() {
 				}
 				st.Inc("overlapping_pairs")
 			} else {
-				out, cl, oh, tag, err = proxy.VerifFilterHTML(wire, h, "example.org", "injections.adguard.com")
+				// the page's host name goes into the tag: ASCII, Latin-1 and beyond Latin-1 (the tag must be encodable in the
+				// document's charset or the response is refused — never re-encoded differently)
+				pageHost := []string{"example.org", "example.org", "example.org", "b\u00fccher.example", "\u043f\u0440\u0438\u043c\u0435\u0440.\u0440\u0444"}[len(body)%5]
+				out, cl, oh, tag, err = proxy.VerifFilterHTML(wire, h, pageHost, "injections.adguard.com")
 				if err != nil {
+					st.Inc("refused")
 					return "E", mline + "\t" + hx(tag), true
 				}
 			}
